@@ -5,7 +5,7 @@ use raft::eraftpb::{ConfChangeTransition, ConfChangeV2, Entry, EntryType, Messag
 use raft::{GetEntriesContext, StateRole};
 
 use crate::action::*;
-use crate::refmodel::{disjoint_quorums, RefConf};
+use crate::refmodel::{disjoint_quorums, RefConf, RefOp};
 use crate::world::*;
 
 fn empty_normal_digest() -> u64 {
@@ -327,6 +327,102 @@ impl World {
         if Self::term_at(node, idx) != Some(snap.get_metadata().term) {
             let d = format!("node {n}: log boundary term at {idx} is {:?}, snapshot term {}", Self::term_at(node, idx), snap.get_metadata().term);
             return Err(self.violation("C15", "C15.install_effect", n, d, "boundary_term_mismatch".into()));
+        }
+        Ok(())
+    }
+
+    /// C12 what-if: Changer::simple / enter_joint(true|false) / leave_joint with a seeded change list on node n's
+    /// current tracker, compared with the reference algebra (acceptance, resulting configuration, progress-map
+    /// changes, voter-set delta of a simple change, quorum overlap). The tracker itself is not modified.
+    pub fn conf_exercise(&mut self, n: NodeId, seed: u64) -> VResult<()> {
+        use raft::eraftpb::{ConfChangeSingle, ConfChangeType};
+        let (shape, keys) = match self.nodes.get(&n) {
+            Some(x) if x.running() => (x.obs.conf.clone(), x.obs.prs_keys.clone()),
+            _ => return Ok(()),
+        };
+        let mut p = seed;
+        let mut universe: Vec<u64> = self.cfg.nodes.keys().cloned().collect();
+        universe.push(0);
+        universe.push(99);
+        let k = crate::prng::splitmix64(&mut p) % 4;
+        let mut ccs: Vec<ConfChangeSingle> = Vec::new();
+        for _ in 0..k {
+            let mut c = ConfChangeSingle::default();
+            c.set_change_type(match crate::prng::splitmix64(&mut p) % 3 {
+                0 => ConfChangeType::AddNode,
+                1 => ConfChangeType::RemoveNode,
+                _ => ConfChangeType::AddLearnerNode,
+            });
+            c.node_id = universe[(crate::prng::splitmix64(&mut p) % universe.len() as u64) as usize];
+            ccs.push(c);
+        }
+        let before = RefConf::from_shape(&shape);
+        self.bump("conf_what_if_calls");
+        for op in [RefOp::Simple, RefOp::Enter { auto_leave: true }, RefOp::Enter { auto_leave: false }, RefOp::Leave] {
+            let got = {
+                let raw = self.nodes[&n].raw.as_ref().unwrap();
+                let ch = raft::Changer::new(raw.raft.prs());
+                let r = std::panic::catch_unwind(std::panic::AssertUnwindSafe(|| match op {
+                    RefOp::Simple => {
+                        let mut ch = ch;
+                        ch.simple(&ccs)
+                    }
+                    RefOp::Enter { auto_leave } => ch.enter_joint(auto_leave, &ccs),
+                    RefOp::Leave => ch.leave_joint(),
+                }));
+                match r {
+                    Ok(Ok((cfg, changes))) => Ok((ConfShape::from_cs(&cfg.to_conf_state()), changes)),
+                    Ok(Err(e)) => Err(format!("{e:?}")),
+                    Err(_) => {
+                        let msg = take_last_panic().unwrap_or_default();
+                        let d = format!("node {n}: {op:?} {:?} on {:?} panicked: {msg}", ccs, shape);
+                        return Err(self.violation("C12", "C12.matches_reference", n, d, "changer_panicked".into()));
+                    }
+                }
+            };
+            let want = before.apply_op(op, &ccs);
+            *self.stats.entry("chk.C12.matches_reference").or_insert(0) += 1;
+            let desc = format!("{op:?} {:?} on {:?}", ccs.iter().map(|c| (c.get_change_type(), c.node_id)).collect::<Vec<_>>(), shape);
+            match (&want, &got) {
+                (Err(_), Err(_)) => {}
+                (Ok(w), Err(e)) => {
+                    let d = format!("node {n}: {desc} was rejected ({e}) but the reference accepts it giving {:?}", w.to_shape());
+                    return Err(self.violation("C12", "C12.matches_reference", n, d, "conf_wrongly_rejected".into()));
+                }
+                (Err(e), Ok((g, _))) => {
+                    let d = format!("node {n}: {desc} was accepted giving {:?} but must be rejected ({e})", g);
+                    return Err(self.violation("C12", "C12.matches_reference", n, d, "conf_wrongly_accepted".into()));
+                }
+                (Ok(w), Ok((g, changes))) => {
+                    if w.to_shape() != *g {
+                        let d = format!("node {n}: {desc} gave {:?}, reference gives {:?}", g, w.to_shape());
+                        return Err(self.violation("C12", "C12.matches_reference", n, d, "conf_result_mismatch".into()));
+                    }
+                    // progress-map changes lead to exactly the members
+                    let mut ks: std::collections::BTreeSet<u64> = keys.iter().cloned().collect();
+                    // (MapChangeType is not exported: an entry for a member counts as Add, for a non-member as Remove)
+                    for (id, _) in changes {
+                        if w.members().contains(id) {
+                            ks.insert(*id);
+                        } else {
+                            ks.remove(id);
+                        }
+                    }
+                    *self.stats.entry("chk.C12.invariants").or_insert(0) += 1;
+                    if ks != w.members() {
+                        let d = format!("node {n}: {desc}: progress map after the change tracks {:?}, members are {:?}", ks, w.members());
+                        return Err(self.violation("C12", "C12.invariants", n, d, "progress_keys".into()));
+                    }
+                    if op == RefOp::Simple {
+                        *self.stats.entry("chk.C12.simple_changes_one_voter").or_insert(0) += 1;
+                    }
+                    *self.stats.entry("chk.C12.quorum_overlap").or_insert(0) += 1;
+                    if let Some((a, b)) = disjoint_quorums(&before, w) {
+                        let d = format!("node {n}: {desc}: quorum {:?} of the old configuration and quorum {:?} of the new one are disjoint", a, b);
+                        return Err(self.violation("C12", "C12.quorum_overlap", n, d, "disjoint_quorums".into()));
+                    }
+                }
+            }
         }
         Ok(())
     }
